@@ -25,6 +25,7 @@ PROPS = {
         "trust": ["that float rounding never pushes a derived channel outside [0,1] by more than 1e-12 is observed, not proved"],
     },
     "C06": {
+        "cli": True,
         "rule": "random and structured colours (HSL-float and 8-bit) x amounts (in range, overshooting, negative, 0, below one ulp, huge); each adjustment on implementation and model; clause-by-clause oracle incl. luminance monotonicity along l-lines; non-trivial = non-zero amount on a chromatic colour strictly inside the lightness range",
         "trust": ["luminance monotonicity under lighten/darken is searched (1e-12 noise allowance), not proved"],
     },
@@ -49,6 +50,7 @@ PROPS = {
         "trust": ["the independent evaluation is the Lean model read at Float"],
     },
     "C14": {
+        "cli": True,
         "rule": "rearrange_sequence on lists of length 0..40 (duplicates, equidistant) vs brute-force farthest-first; SimulatedAnnealing::with_rng under 6 replayed random streams (seeded, all-zero, all-one, alternating, counter, skewed) x target x mode x metric x every num_fixed in 0..n, n<=6 (quick) / 8; the model consumes the logged raw draws and must end in the same colours and table; distinct_colors with the real RNG; non-trivial = at least one free colour and one iteration",
         "trust": [
                 "the model of rand 0.9 StandardUniform/random_range is validated by the correspondence only",
@@ -62,6 +64,7 @@ PROPS = {
         ]
 },
     "C08": {
+        "cli": True,
         "rule": "exhaustive: all add-stop histories of length <= 3 (quick) / 4 over positions {0,.25,.5,.5,1,-3,7,NaN} x 3 colours with dump and 9 sample points each; all permutations of random distinct-position histories; random histories up to 40 stops with arbitrary float positions; non-trivial = a repeated or out-of-order position",
         "trust": [
                 "stops are read from the Debug rendering of ColorScale",
@@ -90,6 +93,7 @@ PROPS = {
         ]
 },
     "C02": {
+        "cli": True,
         "rule": "raw {:.N} and {} formatting of 20k (quick) / 400k floats incl. exact ties; 10 formatters x both spacings on structured colours, a lattice, all 256 hex alpha levels, all 1001 three-decimal alphas, HSL-float colours \u2014 exact string equality with the model; oracle print-then-parse for 7 notations x 2 spacings on every 5th level per channel (quick) / all 2^24 (thorough); non-trivial = alpha != 1 (formatter ops), every colour (oracle)",
         "trust": [
                 "Rust's float Display/{:.N} is modelled (exact integer arithmetic on the bit pattern), validated by the correspondence"
